@@ -333,6 +333,8 @@ pub const ENC_SCALARS: [u32; 40] = [
     0x10FFFF, 0x7FF, 0x800,
 ];
 pub const LONE: [u32; 2] = [0xD83D, 0xDCA9];
+/// decimal length boundaries of numeric character references
+pub const NCR_SCALARS: [u32; 19] = [128, 129, 255, 999, 1000, 1001, 9999, 10000, 10001, 55295, 57344, 65533, 99999, 100000, 100001, 999999, 1000000, 1000001, 1114111];
 
 fn short_alphabet(name: &str) -> Vec<u32> {
     match name {
@@ -495,6 +497,21 @@ fn enc_pairs(cx: &mut Ctx) {
                 }
                 ewhole(cx, &ehc(e, source, ESink::Slice, false), &[a], false);
                 ewhole(cx, &ehc(e, source, ESink::Slice, true), &[a], true);
+            }
+            // numeric character references: every decimal length boundary (and neighbours), with replacement,
+            // alone and between neighbours (the NCR writer is shared by all encoders with unmappables)
+            for &c in NCR_SCALARS.iter() {
+                for t in [vec![c], vec![0x41, c, 0x42], vec![c, c]] {
+                    ewhole(cx, &ehc(e, source, ESink::Slice, true), &t, false);
+                }
+            }
+            for _ in 0..if cx.thorough { 400 } else { 60 } {
+                let mut c = cx.rng.below(0x110000) as u32;
+                if (0xD800..0xE000).contains(&c) {
+                    c = 0xFFFD;
+                }
+                let q = cx.rng.chance(1, 2);
+                ewhole(cx, &ehc(e, source, ESink::Slice, true), &[c], q);
             }
             // seeded random texts
             let cnt = if cx.thorough { 1500 } else { 150 };
